@@ -233,7 +233,7 @@ extern MPT_INTERFACE(metatype) *_mpt_iterator_range(MPT_STRUCT(value) *val)
 {
 	MPT_STRUCT(iteratorLinear) *data;
 	MPT_STRUCT(range) r = { 0.0, 1.0 };
-	double step = 0.1, step_count;
+	double step = 0.1, step_count, step_tol;
 	int iv = 10;
 	
 	if (val) {
@@ -282,16 +282,21 @@ extern MPT_INTERFACE(metatype) *_mpt_iterator_range(MPT_STRUCT(value) *val)
 			return 0;
 		}
 		
-		if (step > (r.max - r.min)
-		  || step < (r.max - r.min) * 1e-6) {
+		/* bounds and step are rounded (decimal) values: error of the
+		 * difference is proportional to the magnitude of the bounds */
+		step_count = r.max - r.min;
+		step_tol = 0;
+		if (step_count > 0) {
+			step_tol = 2 * DBL_EPSILON * (1 + (fabs(r.max) + fabs(r.min)) / step_count);
+		}
+		if (step > step_count * (1 + step_tol)
+		  || step < step_count * 1e-6) {
 			errno = ERANGE;
 			return 0;
 		}
-		/* bounds and step are rounded (decimal) values: accept a quotient
-		 * just below the integral number of steps, error of the difference
-		 * is proportional to the magnitude of the bounds */
-		step_count = (r.max - r.min) / step;
-		step_count += step_count * 2 * DBL_EPSILON * (1 + (fabs(r.max) + fabs(r.min)) / (r.max - r.min));
+		/* accept a quotient just below the integral number of steps */
+		step_count /= step;
+		step_count += step_count * step_tol;
 		iv = step_count;
 	}
 	if (!(data = malloc(sizeof(*data)))) {
